@@ -49,6 +49,7 @@ class CFG:
         self._connect(out, self.exit)
         self._dom = None
         self._stmt_loop: Dict[int, List[ast.AST]] = {}
+        self.flow = None  # set by dataflow.Flow: lets guard_exprs see through hoisted conditions
 
     # ------------------------------------------------------------------ construction
     def _new(self, kind, stmt) -> int:
@@ -285,8 +286,22 @@ class CFG:
         for nid, label in sorted(self.guards(b)):
             st = self.nodes[nid].stmt
             if isinstance(st, (ast.If, ast.While)):
-                res.append((st.test, label == "T"))
+                res.append((self.test_of(st, nid), label == "T"))
         return res
+
+    def test_of(self, st, nid=None):
+        """The test of an If / While; a bare temporary (`c = <cond>` ... `if c:`) is replaced by its single definition."""
+        t = st.test
+        if self.flow is None:
+            return t
+        nid = self.node_of(st) if nid is None else nid
+        r = self.flow.resolve_hoisted(t, nid)
+        if r is not t:
+            try:
+                r._parent = st
+            except AttributeError:
+                pass
+        return r
 
     def in_loop(self, b: int) -> bool:
         """b lies on a cycle."""
